@@ -10,6 +10,7 @@ import (
 	"os/exec"
 	"path/filepath"
 	"strings"
+	"sync"
 
 	"github.com/google/go-cmp/cmp"
 	"github.com/google/go-cmp/cmp/cmpopts"
@@ -210,6 +211,51 @@ func sameLigatures(want, got map[string]map[glyph.ID]bool) bool {
 	return true
 }
 
+var modelWidthNames = map[int]string{1: "Ultra Condensed", 2: "Extra Condensed", 3: "Condensed", 4: "Semi Condensed", 5: "Normal",
+	6: "Semi Expanded", 7: "Expanded", 8: "Extra Expanded", 9: "Ultra Expanded"}
+
+var modelWeightNames = map[int]string{100: "Thin", 200: "Extra Light", 300: "Light", 400: "Normal", 500: "Medium",
+	600: "Semi Bold", 700: "Bold", 800: "Extra Bold", 900: "Black"}
+
+// modelSubfamily is the harness's statement of the subfamily naming
+// convention: "<width> <weight> <Oblique|Italic>" with the normal width and
+// weight left out, the weight rounded to the nearest named class (and left out
+// if the family name or the width already contains that word), "Bold" for a
+// bold font of normal/unset weight, and "Regular" when nothing remains.
+func modelSubfamily(f *sfnt.Font) string {
+	var words []string
+	if w := int(f.Width); w != 0 && w != 5 {
+		if name, ok := modelWidthNames[w]; ok {
+			words = append(words, name)
+		} else {
+			words = append(words, f.Width.String())
+		}
+	}
+	if w := int(f.Weight); w != 0 && w != 400 {
+		r := (w + 50) / 100 * 100
+		r = max(100, min(900, r))
+		tag := modelWeightNames[r]
+		seen := strings.Contains(f.FamilyName, tag)
+		for _, x := range words {
+			seen = seen || strings.Contains(x, tag)
+		}
+		if !seen {
+			words = append(words, tag)
+		}
+	} else if f.IsBold {
+		words = append(words, "Bold")
+	}
+	if f.IsOblique {
+		words = append(words, "Oblique")
+	} else if f.IsItalic {
+		words = append(words, "Italic")
+	}
+	if len(words) == 0 {
+		return "Regular"
+	}
+	return strings.Join(words, " ")
+}
+
 // normalForm computes N(F): what Read(Write(F)) must return.
 // It returns a shallow copy with the documented precedence rules applied.
 func normalForm(f *sfnt.Font) *sfnt.Font {
@@ -222,7 +268,10 @@ func normalForm(f *sfnt.Font) *sfnt.Font {
 	n.UnderlinePosition = funit.Float64(math.Round(float64(f.UnderlinePosition)))
 	n.UnderlineThickness = funit.Float64(math.Round(float64(f.UnderlineThickness)))
 	n.IsItalic = f.IsItalic || f.IsOblique || f.ItalicAngle != 0
-	sub := f.Subfamily()
+	// The subfamily string that Write puts into the name table decides whether
+	// Read sets IsBold; it is modelled here independently of the library
+	// (documented naming convention: width name, weight name, Oblique/Italic).
+	sub := modelSubfamily(f)
 	n.IsBold = f.IsBold || (strings.Contains(sub, "Bold") && !strings.Contains(sub, "Semi Bold") && !strings.Contains(sub, "Extra Bold"))
 	n.IsRegular = f.IsRegular && !n.IsItalic && !n.IsBold
 	if f.IsSerif {
@@ -573,6 +622,75 @@ func runC01(c *mon.Ctx) {
 			k.Sample(fmt.Sprintf("%s (%d bytes)", label, len(b)))
 		}
 	})
+	// independent files read (and re-written) at the same time: a file means
+	// the same font whatever else the library is doing in other goroutines
+	// (decoders and encoders must not share scratch state between calls)
+	c.Stratum("concurrent-read", c.N(24, 600), func(k *mon.Case) {
+		r := k.Rng
+		const nFiles = 8
+		datas := make([][]byte, nFiles)
+		for i := range datas {
+			if i%3 == 0 && len(corpus) > 0 {
+				datas[i] = corpus[r.IntN(len(corpus))].data
+				continue
+			}
+			f, _ := fontgen.Font(r, fontgen.Opts{Kind: []string{"glyf", "cff", "cid"}[i%3], MinGlyphs: 4, MaxGlyphs: 40, Layout: []string{"", "subset"}[r.IntN(2)]})
+			if f.CreationTime.IsZero() && f.ModificationTime.IsZero() {
+				f.ModificationTime = f.ModificationTime.AddDate(2001, 0, 0)
+			}
+			b, ok := writeFont(k, f, "Write(F)")
+			if !ok {
+				return
+			}
+			datas[i] = b
+		}
+		digestOf := func(data []byte) string {
+			g, err := sfnt.Read(bytes.NewReader(data))
+			if err != nil {
+				return "read error: " + err.Error()
+			}
+			if hasUnencodable(g) {
+				return fmt.Sprint("unencodable ", g.NumGlyphs())
+			}
+			buf := &bytes.Buffer{}
+			if _, err := g.Write(buf); err != nil {
+				return "write error: " + err.Error()
+			}
+			return fingerprint(buf.Bytes())
+		}
+		alone := make([]string, nFiles)
+		for i, d := range datas {
+			var s string
+			if k.Guard("Read+Write", func() { s = digestOf(d) }) {
+				return
+			}
+			alone[i] = s
+		}
+		for round := 0; round < 3; round++ {
+			got := make([]string, nFiles)
+			var wg sync.WaitGroup
+			for i := range datas {
+				wg.Add(1)
+				go func(i int) {
+					defer wg.Done()
+					if pv, _ := mon.Try(func() { got[i] = digestOf(datas[i]) }); pv != nil {
+						got[i] = fmt.Sprint("panic: ", pv)
+					}
+				}(i)
+			}
+			wg.Wait()
+			k.Evals(nFiles)
+			for i := range got {
+				if got[i] != alone[i] {
+					k.Fail("mismatch", "concurrent-read-differs", "file %d of %d (%d bytes) read and re-written concurrently gives %s, alone %s", i, nFiles, len(datas[i]), got[i], alone[i])
+					return
+				}
+			}
+		}
+		k.Distinct("concurrent", k.Index)
+		k.Class("concurrent-read")
+	})
+	c.Require("concurrent-read")
 	c.Require("kind=glyf,layout=yes", "kind=glyf,layout=no", "kind=cff,layout=yes", "kind=cff,layout=no", "kind=cid,layout=yes", "kind=cid,layout=no",
 		"cross-process-determinism", "bytes:accepted", "rule:capheight-from-H", "rule:italic-angle-rounding", "rule:underline-rounding", "rule:version-rounding", "glyphs~256")
 }
